@@ -496,3 +496,86 @@ def rule_G14(ck):
         if missing:
             ck.violation(call, f"{q.split('::')[1]} compiles the included file recursively without {'; '.join(missing)}: a file that includes itself (or two files that include each other) recurses until "
                                "Python's recursion limit: RecursionError, 'unexpected internal compiler error' instead of a diagnostic", construct=f"unbounded inclusion recursion in {q.split('::')[1]}")
+
+
+# ---------------------------------------------------------------------------------------------------------------
+# G13n - no regular-expression parser matches the empty string
+def rule_G13n(ck):
+    """The parse-loop template of G13 assumes that a parser which matched has consumed input. The primitive parsers are
+    Parser.literal(non-empty text) and Parser.regex(pattern): every pattern must have a minimal match width of at least one
+    character (computed with re._parser, the standard library's own regex parser), every literal must be non-empty. Patterns
+    built from tables are evaluated row by row."""
+    import re._parser as rp
+    from ..engine.interp import Unsupported, Env
+    from ..engine.loader import Unknown
+    from .world import eager_interp
+    repo = ck.repo
+    mod = repo.module("parser")
+    I = eager_interp(repo)
+    n = 0
+
+    def rows_for(name, fn):
+        """values a loop variable takes when it iterates over a literal table in fn: [(ast of row element)]"""
+        out = []
+        for loop in ast.walk(fn):
+            if isinstance(loop, ast.For) and isinstance(loop.iter, (ast.List, ast.Tuple)):
+                tgt = loop.target
+                names = [e.id for e in tgt.elts] if isinstance(tgt, ast.Tuple) and all(isinstance(e, ast.Name) for e in tgt.elts) else ([tgt.id] if isinstance(tgt, ast.Name) else [])
+                if name in names:
+                    for row in loop.iter.elts:
+                        out.append(row.elts[names.index(name)] if isinstance(tgt, ast.Tuple) and isinstance(row, (ast.Tuple, ast.List)) else row)
+        return out
+
+    def patterns(arg, fn):
+        """the concrete pattern strings an argument expression can denote"""
+        if isinstance(arg, ast.Constant) and isinstance(arg.value, str):
+            return [arg.value]
+        free = sorted({m.id for m in ast.walk(arg) if isinstance(m, ast.Name)} - {"re", "radix50", "types", "reports"})
+        combos = [{}]
+        for nm in free:
+            rows = rows_for(nm, fn) if fn is not None else []
+            if not rows:
+                raise Unknown(f"pattern {norm_text(arg)[:60]}: the name {nm} is not a loop variable over a literal table")
+            combos = [dict(c, **{nm: r}) for c in combos for r in rows]
+        out = []
+        for c in combos:
+            def thunk(c=c):
+                env = Env(I.module_env("parser"))
+                for k, v in c.items():
+                    env.vars[k] = I.ev(v, env, mod)
+                return I.ev(arg, env, mod)
+            ps = I.explore(thunk)
+            if len(ps) != 1 or ps[0].kind != "return" or not isinstance(ps[0].value, str):
+                raise Unknown(f"pattern {norm_text(arg)[:60]} does not fold to text: {ps}")
+            out.append(ps[0].value)
+        return out
+    for node in ast.walk(mod.tree):
+        if isinstance(node, ast.Call) and isinstance(node.func, ast.Attribute) and node.func.attr in ("regex", "literal") and norm_text(node.func.value) in ("Parser", "cls") and node.args:
+            fn = repo.enclosing_function(node)
+            q = f"parser::{mod.qualname_of.get(id(fn), '<module>')}" if fn is not None else "parser::<module>"
+            try:
+                pats = patterns(node.args[0], fn)
+            except Unsupported as ex:
+                raise Unknown(f"{q}: pattern {norm_text(node.args[0])[:60]}: {ex}") from None
+            except Unknown:
+                if node.func.attr != "literal":
+                    raise
+                # a literal taken from the operator registry (operator() asserts a non-empty spelling) or from the text just read
+                n += 1
+                ck.instance(("primitive-parser", node.lineno, norm_text(node.args[0])), {"where": q, "literal": norm_text(node.args[0]), "minimal width": "dynamic: a registry key / a character of the text"}, fn=q)
+                continue
+            for p_ in pats:
+                n += 1
+                if node.func.attr == "literal":
+                    width = len(p_)
+                else:
+                    try:
+                        width = rp.parse(p_).getwidth()[0]
+                    except Exception as ex:
+                        raise Unknown(f"{q}: pattern {p_!r} does not parse: {ex}") from None
+                ck.instance(("primitive-parser", node.lineno, p_), {"where": q, node.func.attr: p_[:60], "minimal width": width}, fn=q)
+                if width < 1:
+                    ck.violation(node, f"Parser.{node.func.attr}({p_!r}) can match the empty string: a loop that repeats a parser built from it ('while True: x = p(ctx, maybe=True); if x is None: break', "
+                                       "operator and operand lists, string pieces) makes no progress and never ends", construct=f"parser primitive matches the empty string in {q.split('::')[1]}")
+    if n < 40:
+        ck.unknown(f"only {n} primitive parsers (Parser.regex / Parser.literal) found (over 60 confirmed by hand)")
